@@ -117,14 +117,39 @@ pub fn run_sched(sc: &Value) -> Value {
     }
     let threads = sc["threads"].as_array().unwrap();
     let mut handles = vec![];
+    // stress mode: no forced schedule; every thread repeats its commands `stress_rounds` times, free running (for loops over
+    // atomics that have no yield point inside: the race is then hit by sheer repetition). Before each of its rounds thread 0 runs
+    // the `rearm` frames (e.g. a delete that makes the key absent again); a non-zero request CAS is advanced by `cas_step` per round.
+    let rounds = sc["stress_rounds"].as_u64().unwrap_or(0);
+    if rounds > 0 {
+        memcrs::verif_hooks::set_hook(None);
+    }
+    let rearm: Vec<Vec<u8>> = sc["rearm"].as_array().map(|a| a.iter().map(|f| unhex(f.as_str().unwrap())).collect()).unwrap_or_default();
+    let cas_step = sc["cas_step"].as_u64().unwrap_or(0);
     for (tid, frames) in threads.iter().enumerate() {
         let frames: Vec<Vec<u8>> = frames.as_array().unwrap().iter().map(|f| unhex(f.as_str().unwrap())).collect();
         let w = w.clone();
         let st = state.clone();
+        let rearm = rearm.clone();
         handles.push(std::thread::spawn(move || {
-            TID.with(|t| t.set(tid));
+            TID.with(|t| t.set(if rounds > 0 { usize::MAX } else { tid }));
             let mut codec = MemcacheBinaryCodec::new(limit);
             let mut out = vec![];
+            for r in 1..rounds {
+                if tid == 0 {
+                    for f in &rearm {
+                        run_frame(&w, &mut codec, f);
+                    }
+                }
+                for f in &frames {
+                    let mut f = f.clone();
+                    if f.len() >= 24 && f[16..24].iter().any(|b| *b != 0) && cas_step > 0 {
+                        let c = u64::from_be_bytes(f[16..24].try_into().unwrap()).wrapping_add(r.wrapping_mul(cas_step)) & ((1u64 << 62) - 1);
+                        f[16..24].copy_from_slice(&c.max(1).to_be_bytes());
+                    }
+                    run_frame(&w, &mut codec, &f);
+                }
+            }
             for f in frames {
                 out.push(run_frame(&w, &mut codec, &f));
             }
